@@ -495,6 +495,9 @@ class _Ctx:
         l, r = self.ev(e.left), self.ev(e.right)
         if isinstance(e.left, (ast.Tuple, ast.List)) or isinstance(e.right, (ast.Tuple, ast.List)):
             return holder(l, r)      # tuple/list concatenation / repetition keeps the elements
+        if isinstance(e.op, ast.LShift) and l.roots and l.kind not in ("scalar", "str", "time"):
+            # astropy's `quantity << unit` hands back the same Quantity (a view) when it already has that unit
+            return view_of(l)
         k = None
         if "time" in (l.kind, r.kind) and isinstance(e.op, (ast.Add, ast.Sub)):
             k = "time"
